@@ -71,4 +71,37 @@ theorem splitAux_length (sep : Char) : ∀ cs, (splitAux sep cs).2.length = cs.c
       · have : (c == sep) = false := by simpa using h
         simp [splitAux, h, ih]
 
+/-- `text.replace(old, new) == new.join(text.split(old))` -/
+theorem replaceChars_eq_join_split (old : Char) (new : List Char) : ∀ cs,
+    replaceChars old new cs = joinStr new (splitAux old cs).1 (splitAux old cs).2
+  | [] => by simp [replaceChars, splitAux, joinStr]
+  | c :: cs => by
+      have ih := replaceChars_eq_join_split old new cs
+      simp only [replaceChars, joinStr] at ih
+      by_cases h : c = old
+      · subst h; simp [replaceChars, splitAux, joinStr, ih]
+      · simp [replaceChars, splitAux, h, joinStr, ih]
+
+theorem replaceChars_no_old (old : Char) (new : List Char) (hn : old ∉ new) : ∀ cs, old ∉ replaceChars old new cs
+  | [] => by simp [replaceChars]
+  | c :: cs => by
+      have ih := replaceChars_no_old old new hn cs
+      simp only [replaceChars] at ih
+      by_cases h : c = old
+      · subst h
+        simp only [replaceChars, List.flatMap_cons, if_true, List.mem_append, not_or]
+        exact ⟨hn, ih⟩
+      · simp only [replaceChars, List.flatMap_cons, h, if_false, List.mem_append, List.mem_singleton, not_or]
+        exact ⟨fun e => h e.symm, ih⟩
+
+/-- a text without the character is left alone -/
+theorem replaceChars_absent (old : Char) (new : List Char) : ∀ cs, old ∉ cs → replaceChars old new cs = cs
+  | [], _ => by simp [replaceChars]
+  | c :: cs, h => by
+      simp only [List.mem_cons, not_or] at h
+      have ih := replaceChars_absent old new cs h.2
+      simp only [replaceChars] at ih
+      have hc : c ≠ old := fun e => h.1 e.symm
+      simp [replaceChars, hc, ih]
+
 end Pyg
